@@ -160,6 +160,21 @@ CHECKS = {
         note="Probability statements are reduced to deterministic rules on the random source (i.i.d. uniforms and a "
              "correct numpy.random.choice assumed; a seeded frequency test at <1e-9 checks those assumptions).",
     ),
+    "C19": dict(
+        category="exploration",
+        technique="TLA+ spec Codec.tla (grammar of value kinds, per-format stored/read-back forms, extension handling) "
+                  "checked by TLC; every generated dictionary written/read by the real save_results/save_kwargs; "
+                  "kind-trees of real result dictionaries checked for membership by TLC (TraceCodec.tla)",
+        text="The specification enumerates dictionaries over the kinds that appear in results (and those that must only "
+             "not break the config file); each is instantiated with concrete values (NaN, infinities, None, numpy "
+             "scalars, structured arrays, pools/classes/callbacks), saved with the real code in json/hdf5/h5, read back "
+             "and compared leaf by leaf; result files and config.json of real runs of both samplers are read back and "
+             "compared with the in-memory dictionary. This is encode/decode fidelity: the family serves as case "
+             "generator with an oracle.",
+        design_ref="DESIGN.md 4 C19",
+        note="JSON stores most structured arrays as positional records (values compared position by position); numpy "
+             "longdouble is compared after rounding to double; depth <=3, <=2 (3) leaves per generated dictionary.",
+    ),
 }
 
 NOT_YET = {k: 'check not built yet (work in progress; see DESIGN.md 8 for the order of work)' for k in ['C01', 'C02', 'C03', 'C05', 'C09', 'C10', 'C11', 'C12', 'C13', 'C14', 'C15', 'C16', 'C17', 'C18', 'C19', 'C20']}
